@@ -721,9 +721,20 @@ func (rw *rewriter) selectStmt(sel *ast.SelectStmt, label *ast.Ident) []ast.Stmt
 	}
 	pre = append(pre, &ast.SwitchStmt{Tag: p, Body: &ast.BlockStmt{List: prefCases}})
 
-	// 4. Then all cases in source order, non-blocking.
+	// 4. Then all cases in source order, non-blocking. With no scheduler
+	// at all (Pref returns -2: the conformance run of the repository's own
+	// tests) these probes are skipped, so that the blocking select below
+	// makes Go's own uniform choice among the ready cases, exactly like the
+	// original statement.
+	ordered := func() ast.Expr {
+		return &ast.BinaryExpr{
+			X:  kNeg(),
+			Op: token.LAND,
+			Y:  &ast.BinaryExpr{X: p, Op: token.NEQ, Y: &ast.UnaryExpr{Op: token.SUB, X: intLit(2)}},
+		}
+	}
 	for i, c := range comms {
-		pre = append(pre, &ast.IfStmt{Cond: kNeg(), Body: &ast.BlockStmt{List: []ast.Stmt{probe(i, c, false)}}})
+		pre = append(pre, &ast.IfStmt{Cond: ordered(), Body: &ast.BlockStmt{List: []ast.Stmt{probe(i, c, false)}}})
 	}
 
 	// 5. Nothing ready: the original blocking select (or its default).
